@@ -222,10 +222,10 @@ class Generator:
                 spec, i = self.parse_fn_block(lines, i, path)
                 self.emit_fn(spec)
             elif s == "//@emit-free":
-                for lines, rec in self.pending_free:
+                for flines, rec in self.pending_free:
                     rec["gen_line"] = len(self.out) + 1
-                    for ln, org in lines:
-                        self.out.append((ln, org))
+                    for fl, org in flines:
+                        self.out.append((fl, org))
                     rec["gen_end"] = len(self.out)
                     self.fns.append(rec)
                 self.pending_free = []
@@ -910,6 +910,18 @@ class Generator:
             else:
                 h = Tok("synthhint", "\n" + inv + "\n", -1, -1, body[j].line)
                 body = body[:j] + [h] + body[j:]
+                if kw == "for" and "iter" in flags:
+                    # Verus names the ghost iterator of a native for-loop:  for x in NAME: EXPR
+                    d = 0
+                    for x in range(i + 1, j):
+                        t = body[x]
+                        if t.kind == "punct" and t.text in "([{":
+                            d += 1
+                        elif t.kind == "punct" and t.text in ")]}":
+                            d -= 1
+                        elif t.kind == "ident" and t.text == "in" and d == 0:
+                            body = body[:x + 1] + [Tok("synthhint", " %s:" % flags["iter"], -1, -1, t.line)] + body[x + 1:]
+                            break
         return body
 
     def _is_hrtb(self, body, i):
